@@ -275,6 +275,7 @@ type Call struct {
 
 // Inst is one API value with stubs installed.
 type Inst struct {
+	PresetHeader http.Header // headers already present on the ResponseWriter when the API is entered
 	P     *Pkg
 	V     reflect.Value // *API
 	H     http.Handler
@@ -389,6 +390,12 @@ func (r *Recorder) Write(bs []byte) (int, error) {
 // Serve runs one request through the API value, recovering panics.
 func (in *Inst) Serve(req *http.Request) (rec *Recorder, panicked string) {
 	rec = NewRecorder()
+	// what an earlier layer (a middleware, the server) may already have put on the writer
+	for k, vs := range in.PresetHeader {
+		for _, v := range vs {
+			rec.Header().Add(k, v)
+		}
+	}
 	defer func() {
 		if r := recover(); r != nil {
 			panicked = fmt.Sprintf("%v\n%s", r, debug.Stack())
